@@ -98,10 +98,23 @@ def check(d: str, props: list[str]) -> dict:
         if rc:
             out["error"] = "patch does not apply: " + o[-200:]
             return out
+        import signal
+
+        def _alarm(*_):
+            raise TimeoutError("check timed out")
+
+        signal.signal(signal.SIGALRM, _alarm)
         for pid in props:
             buf = io.StringIO()
-            with redirect_stdout(buf):
-                rc = run_property(pid, base, "quick", evidence_dir=os.path.join(base, "ev"), quiet=True)
+            signal.alarm(40)
+            try:
+                with redirect_stdout(buf):
+                    rc = run_property(pid, base, "quick", evidence_dir=os.path.join(base, "ev"), quiet=True)
+            except TimeoutError:
+                rc = 3
+                buf.write("ANALYSIS-ERROR TIMEOUT\n")
+            finally:
+                signal.alarm(0)
             lines = [ln.strip() for ln in buf.getvalue().splitlines() if ln.startswith("  src/") or ln.startswith("ANALYSIS-ERROR")]
             out["results"][pid] = {"exit": rc, "lines": lines[:6]}
     finally:
@@ -125,14 +138,16 @@ def main() -> int:
     else:
         root = os.path.join(VERIF, "seeded")
         rows = []
-        for name in sorted(os.listdir(root)):
+        names = [n for n in sorted(os.listdir(root)) if os.path.exists(os.path.join(root, n, "patch.diff"))]
+        from multiprocessing import Pool
+
+        with Pool(14) as pool:
+            results = pool.starmap(check, [(os.path.join(root, n), props) for n in names])
+        for name, r in zip(names, results):
             d = os.path.join(root, name)
-            if not os.path.exists(os.path.join(d, "patch.diff")):
-                continue
             meta = json.load(open(os.path.join(d, "meta.json"))) if os.path.exists(os.path.join(d, "meta.json")) else {}
-            r = check(d, props)
             fired = sorted(p for p, v in r["results"].items() if v["exit"] == 1)
-            errs = sorted(p for p, v in r["results"].items() if v["exit"] == 2)
+            errs = sorted(p for p, v in r["results"].items() if v["exit"] >= 2)
             target = meta.get("property")
             status = "CAUGHT" if target in fired else ("caught-by-other" if fired else "MISSED")
             rows.append((name, target, status, fired, errs))
